@@ -138,6 +138,7 @@ var universe = []namedVal{
 	{"msg-All", vMsg("All", vStr("f_int32"), vI(3))}, {"msg-Leaf", vMsg("Leaf", vStr("x"), vI(1))}, {"msg-P2", vMsg("P2", vStr("req"), vI(4))},
 	{"Color.GREEN", vEnum("Color.GREEN")}, {"Color.BIG", vEnum("Color.BIG")}, {"Color.SMALL", vEnum("Color.SMALL")},
 	{"Other.Y", vEnum("Other.Y")}, {"Other.Z", vEnum("Other.Z")}, {"E2.B", vEnum("E2.B")},
+	{"LeafColor.TEAL", vEnum("LeafColor.TEAL")}, {"LeafColor.ODD", vEnum("LeafColor.ODD")}, {"LeafColor.NAVY", vEnum("LeafColor.NAVY")},
 	{"fielddesc", Val{T: "fielddesc"}}, {"func", Val{T: "func"}}, {"enumtype", Val{T: "enumtype"}}, {"msgtype", Val{T: "msgtype"}},
 }
 
@@ -390,7 +391,7 @@ func genScalar(t *rapid.T, kind string, pInvalid float64) Val {
 		return pickVal(t, vBytes(""), vBytes("a"), vBytes("\xff\x00\x80"), vBytes(fmt.Sprintf("b%d", vk.Uniform(t, 50))))
 	case "enum":
 		if invalid {
-			return pickVal(t, vI(3), vStr("NOPE"), vEnum("Other.Y"), vEnum("Other.Z"), vInt("2147483648"), vBool(true), vFloat("1"))
+			return pickVal(t, vI(3), vStr("NOPE"), vEnum("Other.Y"), vEnum("Other.Z"), vEnum("LeafColor.TEAL"), vEnum("LeafColor.ODD"), vInt("2147483648"), vBool(true), vFloat("1"))
 		}
 		return pickVal(t, vI(0), vI(1), vI(5), vI(-2), vInt("2147483647"), vInt("-2147483648"), vStr("GREEN"), vStr("BIG"), vEnum("Color.BLUE"),
 			vEnum("Color.SMALL"), vEnum("Color.RED"))
